@@ -149,6 +149,23 @@ def _job(item):
     return hist, name, check_exports(reg, model, name, os.environ["VERIF_SCRATCH"], do_reg=do_reg, loose=loose)
 
 
+def _fixed_job(task):
+    label, md, kind, variant = task
+    try:
+        reg, model = build_fixed(kind, md)
+    except Exception as e:
+        return [dict(kind="build_raise", what="building region %s raised %r" % (label, e))]
+    npx = sum(len(s) for s in reg.pixeldict.values())
+    r = copy.deepcopy(reg)
+    if variant == "after_query":
+        try:
+            r.sky_within(0.1, 0.1)
+        except Exception as e:
+            return [dict(kind="query_raise", what="sky_within on region %s raised %r" % (label, e))]
+    return check_exports(r, model, label, os.environ["VERIF_SCRATCH"],
+                         do_reg=(npx <= 400 and variant == "fresh") or len(model) <= 400 or kind == "circle_big")
+
+
 def fixed_regions(tier):
     """E1 part: {empty, single pixel, multi-level, whole sky} x maxdepth 1..12"""
     out = []
@@ -158,6 +175,9 @@ def fixed_regions(tier):
         out.append(("circle@%d" % md, md, "circle"))
         if md <= 6:
             out.append(("wholesky@%d" % md, md, "wholesky"))
+        if md in (6, 7):
+            # more than 1024 (2048) pixels in ONE level once a query has demoted the region: block-wise writers
+            out.append(("circle_big@%d" % md, md, "circle_big"))
         if 4 <= md <= 9:
             # pixels just south of the equator (-1 < Dec < 0: sign of a '-00' degree field) and across RA = 0 / 24h
             out.append(("equator@%d" % md, md, "equator"))
@@ -177,6 +197,10 @@ def build_fixed(kind, md):
         rad = min(0.4, 300 * hp.nside2resol(2 ** md))
         r.add_circles(1.0, -0.5, rad)
         return r, frozenset(hpset.disc(md, 1.0, -0.5, rad))
+    if kind == "circle_big":
+        rad = {6: 0.41, 7: 0.16}[md]      # ~2100 pixels at depth 6, ~1250 at depth 7
+        r.add_circles(2.2, 0.35, rad)
+        return r, frozenset(hpset.disc(md, 2.2, 0.35, rad))
     if kind in ("equator", "rawrap"):
         ra0, dec0 = (2.0, np.radians(-0.4)) if kind == "equator" else (np.radians(0.05), np.radians(-12.0))
         rad = max(np.radians(0.7), 3 * hp.nside2resol(2 ** md))
@@ -313,28 +337,20 @@ def main(tier, seed, t0):
         for v in viols:
             ctx.violation("%s after history %s" % (v["what"], " ; ".join(hist)), "%s|%s|%s" % (v["kind"], name, " ; ".join(hist)),
                           clause="history", case=dict(history=hist, register=name))
-    # fixed regions x maxdepth
-    for label, md, kind in fixed_regions(tier):
-        ctx.count("exports_of_fixed_regions")
-        try:
-            reg, model = build_fixed(kind, md)
-        except Exception as e:
-            ctx.violation("building region %s raised %r" % (label, e), "build_raise|%s" % label, clause="fixed",
-                          case=dict(kind=kind, maxdepth=md))
-            continue
-        npx = sum(len(s) for s in reg.pixeldict.values())
-        for variant in ("fresh", "after_query"):
-            r = copy.deepcopy(reg)
-            if variant == "after_query":
-                try:
-                    r.sky_within(0.1, 0.1)
-                except Exception as e:
-                    ctx.violation("sky_within on region %s raised %r" % (label, e), "query_raise|%s" % label, clause="fixed",
-                                  case=dict(kind=kind, maxdepth=md, variant=variant))
-                    continue
-            for v in check_exports(r, model, label, os.environ["VERIF_SCRATCH"], do_reg=npx <= 400 and variant == "fresh" or len(model) <= 400):
-                ctx.violation("%s (%s)" % (v["what"], variant), "%s|%s,%s" % (v["kind"], label, variant), clause="fixed",
-                              case=dict(kind=kind, maxdepth=md, variant=variant))
+    # fixed regions x maxdepth (in the pool: the DS9 writer costs ~20 ms per stored pixel)
+    tasks = [(label, md, kind, variant) for label, md, kind in fixed_regions(tier) for variant in ("fresh", "after_query")]
+    pool = mp.get_context("fork").Pool(min(16, os.cpu_count() or 1))
+    try:
+        fres = pool.map(_fixed_job, tasks, chunksize=1)
+    finally:
+        pool.close()
+        pool.join()
+    for (label, md, kind, variant), viols in zip(tasks, fres):
+        if variant == "fresh":
+            ctx.count("exports_of_fixed_regions")
+        for v in viols:
+            ctx.violation("%s (%s)" % (v["what"], variant), "%s|%s,%s" % (v["kind"], label, variant), clause="fixed",
+                          case=dict(kind=kind, maxdepth=md, variant=variant))
     # the MIMAS command line conversions (--mim2fits, --mim2reg) on regions before and after a demoting query
     cli_conversions(ctx)
     reload_histories(ctx)
@@ -373,5 +389,5 @@ def evaluate(clause, case, ctx):
         reg, model = build_fixed(case["kind"], case["maxdepth"])
         if case.get("variant") == "after_query":
             reg.sky_within(0.1, 0.1)
-        for v in check_exports(reg, model, case["kind"], tmp, do_reg=len(model) <= 400):
+        for v in check_exports(reg, model, case["kind"], tmp, do_reg=len(model) <= 400 or case["kind"] == "circle_big"):
             ctx.violation(v["what"], v["kind"])
